@@ -20,6 +20,7 @@ fn main() {
         "evalctx" => s_text::evalctx_line,
         "json" => s_text::json_line,
         "inline" => s_text::inline_line,
+        "intfn" => s_text::intfn_line,
         "evalseq" => s_text::evalseq_line,
         "strlit" => s_text::strlit_line,
         _ => {
